@@ -327,14 +327,22 @@ func c14Program(cs *caseSet, nVal int) {
 	for i := 0; i < nVal*4; i++ {
 		cfg := wv.GenCfg{MaxDepth: 1 + r.Intn(3), MaxLen: r.Pick(0, 1, 2, 3), MaxBin: r.Pick(0, 1, 4)}
 		a := noNaNDup(r, wv.Gen(r, wv.AllTypes[r.Intn(len(wv.AllTypes))], cfg, 0))
+		forcePermute := false
+		if i%5 == 2 {
+			// a set whose items, or a map whose keys, are (lists of) structs of several fields: the other
+			// side lists the same fields, items and entries in another order
+			a, forcePermute = noNaNDup(r, structCollection(r)), true
+		}
 		if a == nil {
 			continue
 		}
 		var bb *wv.V
-		switch r.Intn(3) {
-		case 0:
+		switch k := r.Intn(3); {
+		case forcePermute && k < 2:
 			bb = refcodec.Permute(r, a)
-		case 1:
+		case k == 0:
+			bb = refcodec.Permute(r, a)
+		case k == 1:
 			bb = noNaNDup(r, wv.Gen(r, a.T, cfg, 0))
 		default:
 			bb = mutateW(r, a)
@@ -347,6 +355,46 @@ func c14Program(cs *caseSet, nVal int) {
 			Why: "wire.ValuesAreEqual disagrees with the independent structural comparison"})
 		addSpec(cs, a, bb)
 	}
+}
+
+// structCollection: a set of structs, a map keyed by structs, or either with the structs one list
+// further down; every struct has 2–4 scalar fields.
+func structCollection(r *rng.R) *wv.V {
+	scalars := []byte{wv.TBool, wv.TI8, wv.TI16, wv.TI32, wv.TI64, wv.TBinary}
+	leaf := wv.GenCfg{MaxDepth: 1, MaxLen: 1, MaxBin: 3}
+	strct := func() *wv.V {
+		v := &wv.V{T: wv.TStruct}
+		n := 2 + r.Intn(3)
+		for id := 1; id <= n; id++ {
+			v.Fields = append(v.Fields, wv.Field{ID: uint16(id * 3), V: wv.Gen(r, scalars[r.Intn(len(scalars))], leaf, 0)})
+		}
+		return v
+	}
+	item := func() *wv.V { return strct() }
+	et := byte(wv.TStruct)
+	if r.Chance(1, 3) {
+		et = wv.TList
+		item = func() *wv.V {
+			l := &wv.V{T: wv.TList, ET: wv.TStruct}
+			for k := 1 + r.Intn(2); k > 0; k-- {
+				l.Items = append(l.Items, strct())
+			}
+			return l
+		}
+	}
+	n := 1 + r.Intn(3)
+	if r.Bool() {
+		v := &wv.V{T: wv.TSet, ET: et}
+		for i := 0; i < n; i++ {
+			v.Items = append(v.Items, item())
+		}
+		return v
+	}
+	v := &wv.V{T: wv.TMap, KT: et, ET: wv.TI32}
+	for i := 0; i < n; i++ {
+		v.Items = append(v.Items, item(), wv.Gen(r, wv.TI32, leaf, 0))
+	}
+	return v
 }
 
 // addSpec compares wire.ValuesAreEqual with the Lean statement of "the same logical value" (specEq,
@@ -466,7 +514,7 @@ func runC14(c *checker) {
 		logf("%s: %d ops", b.id(), len(cs.ops))
 		cs.run()
 	}
-	c.rep.Rule = "per named type: triples (x = value as decoded, y = the same value decoded from a re-encoding with struct fields, set items and map entries permuted, z = x with one perturbation: leaf, presence of an optional field, union member, nil vs empty, container length, element order, sign of zero), NaN-free and duplicate-free; Equals reflexive on each, Equals(x,y) and Equals(x,z) vs the harness's structural comparison of the logical values, symmetric, transitive through x≈y, wire.ValuesAreEqual(ToWire x, ToWire ·) the same; nil receivers/arguments; plus pairs of arbitrary wire values (permuted / independent / one-node mutation) for wire.ValuesAreEqual; non-trivial = every case; distinct by (program, op)"
+	c.rep.Rule = "per named type: triples (x = value as decoded, y = the same value decoded from a re-encoding with struct fields, set items and map entries permuted, z = x with one perturbation: leaf, presence of an optional field, union member, nil vs empty, container length, element order, sign of zero), NaN-free and duplicate-free; Equals reflexive on each, Equals(x,y) and Equals(x,z) vs the harness's structural comparison of the logical values, symmetric, transitive through x≈y, wire.ValuesAreEqual(ToWire x, ToWire ·) the same; nil receivers/arguments; plus pairs of arbitrary wire values (permuted / independent / one-node mutation; one pair in five a set of structs or a map keyed by structs, also one list further down, against its permutation) for wire.ValuesAreEqual; non-trivial = every case; distinct by (program, op)"
 }
 
 func init() {
